@@ -109,12 +109,13 @@ struct LeafSenderT {
     Op(Op&&) = delete;
     ~Op() {
       --st->ops_alive;
-      if (st->op == this && st->started > st->completed)
+      if (st->op == this && st->started > st->completed && !done_)
         vmcrt::fail(st->props, "child-destroyed-early", (st->name + ": operation state destroyed before it completed").c_str());
     }
     void start() noexcept {
-      ++st->started; st->op = this; st->start_thread = vmcrt::self();
-      st->fire = [](void* p, char ch, int v) {
+      LeafState* s = st;
+      s->op = this; s->start_thread = vmcrt::self();
+      s->fire = [](void* p, char ch, int v) {
         auto* self = static_cast<Op*>(p);
         if (self->done_) vmcrt::fail(self->st->props, "leaf-twice", "harness error: leaf completed twice");
         self->done_ = true;
@@ -126,8 +127,10 @@ struct LeafSenderT {
         } else if (ch == 'D') unifex::set_done(std::move(self->r));
         else unifex::set_error(std::move(self->r), std::make_exception_ptr(tagged_error{v}));
       };
-      if (unifex::get_stop_token(r).stop_requested()) st->stop_at_start = true;
-      cb.emplace(unifex::get_stop_token(r), Cb{st});
+      if (unifex::get_stop_token(r).stop_requested()) s->stop_at_start = true;
+      cb.emplace(unifex::get_stop_token(r), Cb{s});
+      // publishing `started` is the last action: from here on another thread may complete (and free) the op
+      ++s->started;
     }
   };
   template <class R>
